@@ -9,7 +9,7 @@ NOT_BUILT = "check not built yet (work in progress, see DESIGN.md)"
 
 # checks that have been run silent on the unchanged tree over several seeds and whose
 # sensitivity self-test passed; everything else stays under not_applicable until then
-APPROVED = ["C01", "C02", "C03", "C04", "C05", "C06", "C07", "C08", "C11", "C12", "C13", "C14", "C15", "C16", "C17", "C18", "C19", "C20"]
+APPROVED = ["C01", "C02", "C03", "C04", "C05", "C06", "C07", "C08", "C09", "C10", "C11", "C12", "C13", "C14", "C15", "C16", "C17", "C18", "C19", "C20"]
 
 
 def main():
